@@ -462,7 +462,7 @@ func (ch c13) Run(c *core.Ctx) {
 	}
 	nrand := 30000
 	if c.Tier == "thorough" {
-		nrand = 400000
+		nrand = 1500000
 	}
 	for i := c.Batch; i < nrand; i += nb {
 		idx = 1000000 + i
